@@ -137,18 +137,17 @@ func runC15(e *sim.Env) {
 		g := gen
 		if p.Mode == "sio" {
 			// the library's own server: delivery is observed at handler entry (no order claim here)
-			// (handlers are attached in a namespace middleware, that is before the CONNECT reply is sent:
-			// the connection handler runs on a goroutine of its own and the buffered events of the
-			// client can arrive before it has attached anything)
-			use := func(s sio.ServerSocket, _ *sio.Handshake) any {
+			// the handlers are attached in the connection handler (the canonical usage): the buffered
+			// events of the client arrive right behind its CONNECT packet and must find them
+			reg := w.NewSrvReg()
+			reg.OnNew = func(s *world.SrvSock) {
 				for _, name := range []string{"plain", "volatile"} {
 					name := name
-					s.OnEvent(name, func(id int) { record(name, id, g) })
+					s.Socket.OnEvent(name, func(id int) { record(name, id, g) })
 				}
-				s.OnEvent("ack", func(id int, ack func(int)) { record("ack", id, g); ack(id) })
-				return nil
+				s.Socket.OnEvent("ack", func(id int, ack func(int)) { record("ack", id, g); ack(id) })
 			}
-			w.StartServer(world.ServerOpts{PingInterval: 25 * time.Second, PingTimeout: 20 * time.Minute, UpgradeTimeout: 20 * time.Minute, Configure: func(s *sio.Server) { s.Of("/").Use(use) }})
+			w.StartServer(world.ServerOpts{PingInterval: 25 * time.Second, PingTimeout: 20 * time.Minute, UpgradeTimeout: 20 * time.Minute, Configure: func(s *sio.Server) { reg.Watch(s.Of("/")) }})
 			return
 		}
 		ps := w.StartProtoServer(&eio.ServerConfig{PingInterval: 25 * time.Second, PingTimeout: 20 * time.Minute, UpgradeTimeout: 20 * time.Minute,
